@@ -25,6 +25,7 @@ RULE = (
     "one loop iteration; wrapped function that is itself a wrapper object (timeout(10), throttle); "
     "two overlapping calls through one wrapped function; one wrapper used under two event loops in a row; a second timeout derived from a timeout wrapper, both used afterwards; non-trivial = not the plain 'value before deadline, no cancel' case"
 )
+RULE += ' Round 16: one caller re-using one wrapper right after a timed-out / failed / successful call (11 outcome sequences, incl. a function that works on for 1 s after its cancellation).'
 RULE += ' Rounds 10-11: MANY calls (5-70 (100)) through one wrapper started 1/64 apart; deadlines off the millisecond grid / tiny / huge / int with the function finishing just before / after.'
 ASSUMPTIONS = [
     "virtual time in exact dyadic units; timers with different deadlines fire in deadline order",
@@ -113,6 +114,9 @@ def programs(tier: str):
     for n in (5, 9, 17, 33, 40, 70) if tier == "quick" else (5, 9, 17, 33, 34, 40, 65, 70, 100):
         for pattern in ("one-long", "all-long", "alternating", "last-long"):
             yield {"many": n, "pattern": pattern}
+    # one wrapper used again right after an earlier call ended with a timeout / exception / value
+    for seq in RETRY_SEQS:
+        yield {"retry": seq}
     for form in FINE_TIMEOUTS:
         for delta in (-2048, -3, -1, 1, 3, 2048):
             yield {"fine": form, "delta": delta}
@@ -238,6 +242,83 @@ def _many(program, ch: Chooser) -> Result:
         w.close()
 
 
+class RetryErr(Exception):
+    pass
+
+
+RETRY_SEQS = [
+    ["long", "value"], ["long", "exc"], ["long", "long", "value"], ["stubborn", "value"], ["stubborn", "exc"],
+    ["stubborn", "long", "value"], ["value", "long", "value"], ["exc", "value"], ["exc", "long", "exc"],
+    ["stubborn", "stubborn", "value"], ["long", "value", "value", "long", "value"],
+]
+
+
+def _retry(program, ch: Chooser) -> Result:
+    """ONE caller using ONE wrapper again right after an earlier call ended (with a timeout, with the
+    function's own exception, with a value): every call has its own outcome and its own deadline.
+    "stubborn" = a function that answers the cancellation it gets at the deadline by working on for
+    another 1 s (its caller has got the timeout at the deadline all the same)"""
+    seq = program["retry"]
+    w = World(ch)
+    viols: list[dict] = []
+    try:
+        errs = {i: RetryErr(f"own{i}") for i in range(len(seq))}
+        began: list = []
+        ended: list = []
+
+        @timeout(T)
+        async def fn(i, kind):
+            began.append(i)
+            if kind in ("value", "exc"):
+                await asyncio.sleep(0.5)
+                if kind == "exc":
+                    raise errs[i]
+                return i
+            try:
+                await asyncio.sleep(3 * T)
+            except asyncio.CancelledError:
+                if kind != "stubborn":
+                    raise
+                await asyncio.sleep(1.0)
+                ended.append(i)
+            return i
+
+        out: list = []
+
+        async def caller():
+            for i, kind in enumerate(seq):
+                t0 = now()
+                try:
+                    out.append(["value", await fn(i, kind), now() - t0])
+                except TimeoutError:
+                    out.append(["timeout", None, now() - t0])
+                except BaseException as exc:  # noqa: BLE001
+                    out.append(["exc", "own" if exc is errs[i] else type(exc).__name__, now() - t0])
+
+        t = w.task(caller(), name="caller")
+        hang = False
+        try:
+            w.run()
+        except Livelock:
+            hang = True
+        want = [["value", i, 0.5] if k == "value" else ["exc", "own", 0.5] if k == "exc" else ["timeout", None, T] for i, k in enumerate(seq)]
+        if hang or not t.done():
+            viols.append(viol("termination", "reuse/call-hangs", "every call terminates", {"finished": len(out), "of": len(seq)}))
+        elif t.cancelled() or t.exception() is not None:
+            viols.append(viol("outcome", "reuse/caller-ends-abnormally", "the caller runs on", "cancelled" if t.cancelled() else repr(t.exception())[:120], outcomes=out))
+        elif out != want:
+            first = next(i for i in range(len(want)) if i >= len(out) or out[i] != want[i])
+            viols.append(viol("outcome", f"reuse/after-{seq[first - 1] if first else 'nothing'}", want[first], out[first] if first < len(out) else None, sequence=seq, outcomes=out))
+        if began != list(range(len(seq))) and not viols:
+            viols.append(viol("outcome", "reuse/function-not-started-once-per-call", list(range(len(seq))), began))
+        stubborn = [i for i, k in enumerate(seq) if k == "stubborn"]
+        if ended != stubborn and not viols:
+            viols.append(viol("outcome", "reuse/abandoned-execution-disturbed", stubborn, ended))
+        return Result(f"retry/{'-'.join(seq)}", True, viols, {"sequence": seq, "outcomes": out})
+    finally:
+        w.close()
+
+
 def _pair(program, ch: Chooser) -> Result:
     (da, db), off = program["pair"], program["offset"]
     w = World(ch)
@@ -350,6 +431,8 @@ def execute(program, ch: Chooser) -> Result:  # noqa: C901, PLR0912, PLR0915
         return _pair(program, ch)
     if "many" in program:
         return _many(program, ch)
+    if "retry" in program:
+        return _retry(program, ch)
     if "fine" in program:
         return _fine(program, ch)
     if "loops" in program or "stacked" in program:
